@@ -28,7 +28,7 @@ enforce: spif_array_vector_dup
 backend: sat
 loops: 1
 */
-#define VERIF_REALLOC_ELEM_T spif_obj_t
+#define VA_ELEM_T spif_obj_t
 #include "vprelude.h"
 #include "env_array.h"
 #include "array.h"
@@ -61,7 +61,7 @@ __CPROVER_ensures(__CPROVER_is_fresh(__CPROVER_return_value->items, ASZ(self->le
 __CPROVER_ensures(vg_k >= (size_t) self->len ||
                   (vg_old_k == (spif_obj_t) NULL ? __CPROVER_return_value->items[vg_k] == (spif_obj_t) NULL
                    : (__CPROVER_return_value->items[vg_k] == (spif_obj_t) vg_dup_obj &&     /* = the fresh block */
-                      vg_dup_obj->key == ((velem_t) vg_old_k)->key && vg_dup_cnt == 1)))
+                      vg_dup_obj->key == ((velem_t) self->items[vg_k])->key && vg_dup_cnt == 1)))
 /* the original still holds the same element */
 __CPROVER_ensures(vg_k >= (size_t) self->len || self->items[vg_k] == vg_old_k)
 ;
